@@ -353,6 +353,13 @@ def run_config(case, part):
         if case.get("environment", True) and not case.get("nested"):
             e = Environment(source=cds)
             check_target("environment(source=composite)", e, union, part, case, cfn, navigation=case.get("env_navigation", False))
+        if case.get("environment", True) and not case.get("nested") and len(members) >= 2 and cfn is None:
+            # an Environment given a STORE and a SOURCE together answers from both (the first member's content as the store, the composite of the others as the source)
+            st0 = MemoryStore([obj(n) for n in members[0]])
+            rest = CompositeDataSource()
+            for src in fx.sources[1:]:
+                rest.add_data_source(src)
+            check_target("environment(store=+source=)", Environment(store=st0, source=rest if len(fx.sources) > 2 else fx.sources[1]), union, part, case, None, navigation=case.get("env_navigation", False))
         if case.get("single_store"):
             st = MemoryStore([obj(n) for n in union])
             check_target("memory-store", st, union, part, dict(case, members=[union]), None)
